@@ -14,7 +14,6 @@ Array property spellings: x.flags.c_contiguous | x.flags["C_CONTIGUOUS"] | x.fla
   x.shape ... | len(x) -> shape ;  x.ndim | len(x.shape) -> ndim ;  x.shape == (a, b) -> shape and ndim.
 """
 import ast
-import copy
 
 from sa import cfg as cfgm, pyfacts as pf, symlen
 
@@ -33,12 +32,18 @@ class _Subst(ast.NodeTransformer):
 
     def visit_Name(self, node):
         if node.id in self.mapping and isinstance(node.ctx, ast.Load):
-            return copy.deepcopy(self.mapping[node.id])
+            return _fresh(self.mapping[node.id])
         return node
 
 
+def _fresh(expr):
+    """a copy of the expression without the `_parent` back-links of the framework's trees (deepcopy would
+    follow them and copy the whole module)"""
+    return ast.parse(ast.unparse(expr), mode="eval").body
+
+
 def subst_names(expr, mapping):
-    return _Subst(mapping).visit(copy.deepcopy(expr))
+    return _Subst(mapping).visit(_fresh(expr))
 
 
 def conjuncts(e, positive=True):
